@@ -369,6 +369,14 @@ def kindAlignedB (deps : List Dep) (chunks : List (List Chunk)) : Bool :=
   (deps.zip chunks).all fun p => (deps.zip chunks).all fun q =>
     p.1.kind != q.1.kind || (allRows p.2).map iv == (allRows q.2).map iv
 
+/-- rows of the chunk a merge-only plugin makes from one call when all dependencies are of one
+kind: `Chunk.merge` takes the time fields from the LAST input and the identity from the first
+(same body as `Strax.Selection.mergedRows`) -/
+def mergedRowsOf (c : Call) : List Row :=
+  match c.rows with
+  | [] => []
+  | first :: rest => zipRows first ((first :: rest).getLast (by simp))
+
 /-- calls tile time from `t` on: the first starts at `t`, each next one where the previous ended -/
 def adjacentFrom : Int → List Call → Prop
   | _, [] => True
